@@ -16,7 +16,7 @@ RULE = ("one decorated function per case (cache.early / soft / failover / hit th
         "inner TTL, or an execution failed while a stored result was alive")
 TRUSTED_BASE = ["Coq 8.16.1 kernel + vm_compute", "hand-written model coq/Model/DecorStrategies.v over the TTL-map spec, tied by this differential run",
                 "datetime.now / timedelta arithmetic exact on the 1/16 s grid"]
-ASSUMPTIONS = ["sequential callers (concurrency: C07/C15)", "default condition; default early_ttl/soft_ttl = 0.33*ttl not used (float rounding not modelled)",
+ASSUMPTIONS = ["sequential callers (concurrency: C07/C15)", "default condition; the default early_ttl/soft_ttl = 0.33*ttl is exercised with ttl = 6.25 s only (0.33*ttl is then exactly 33 ticks)",
                "an inline (background=False) refresh that raises propagates its exception to the caller: the model follows the code, the oracle accepts it"]
 EXHAUSTIVE = {"quick": False, "thorough": False}
 
@@ -45,6 +45,10 @@ def gen_cases(rng, tier):
              "spell_inner": rng.choice(["float", "float", "int", "timedelta", "str"])}
         if kind == "hit" and d["spell"] == "callable":
             d["spell"] = "timedelta"      # hit() hands a callable ttl unconverted to the counter's incr(expire=...): TypeError on every call - observed, outside the property (DESIGN 9.3)      # calls with a second argument value interleaved: they have their own key, lock and counter
+        if kind in ("early", "soft") and rng.random() < 0.25:
+            # early_ttl / soft_ttl left out: the code takes 0.33 * ttl; with ttl = 6.25 s that is exactly 33 ticks of 1/16 s
+            ttl, inner = 100, 33
+            d.update({"ttl": ttl, "inner": inner, "default_inner": True})
         ev = []
         for _ in range(rng.randint(2, 14)):
             adv = rng.choice([0, 0, 2, inner - 2, inner, inner + 2, ttl - inner, ttl - 2, ttl, ttl + 2, 4])
@@ -73,7 +77,9 @@ def run_impl(case):
         ttl, inner = ttl_py(case.get("spell", "float"), case["ttl"]), ttl_py(case.get("spell_inner", "float"), case["inner"])     # TTL spellings: float / int / timedelta / '2s' / callable
         kind = case["kind"]
         listed = (KeyError, ExcA) if case.get("exc_tuple") else ExcA
-        if kind == "early": deco = cache.early(ttl=ttl, early_ttl=inner, background=case["bg"])
+        if kind == "early" and case.get("default_inner"): deco = cache.early(ttl=ttl, background=case["bg"])
+        elif kind == "soft" and case.get("default_inner"): deco = cache.soft(ttl=ttl, exceptions=listed)
+        elif kind == "early": deco = cache.early(ttl=ttl, early_ttl=inner, background=case["bg"])
         elif kind == "soft": deco = cache.soft(ttl=ttl, soft_ttl=inner, exceptions=listed)
         elif kind == "fail": deco = cache.failover(ttl=ttl, exceptions=listed)
         elif kind == "failc":
@@ -142,7 +148,7 @@ def run_impl(case):
                     act = "started"
             try:
                 r = await asyncio.wait_for(task, 1000)
-                res = ["val", r]
+                res = ["val", r if isinstance(r, int) and not isinstance(r, bool) else -777]      # anything but an execution number (e.g. an exception object handed back as a value)
             except ExcA: res = ["exc", 1]
             except ExcB: res = ["exc", 2]
             except Exception as e:  # noqa
